@@ -5,7 +5,7 @@ cd /repo || exit 2
 if ! git apply --check "$patch" 2>/dev/null; then echo "PATCH DOES NOT APPLY: $patch"; exit 2; fi
 git apply "$patch"
 for p in "$@"; do
-  out=$(cd /verif && ./check $p --evidence-dir /tmp/seed-evidence 2>&1)
+  out=$(cd /verif && ./check $p --evidence-dir ${SEED_EVID:-/tmp/seed-evidence} 2>&1)
   rc=$?
   echo "== $p rc=$rc"
   echo "$out" | grep "^  key: \|^ERROR\|^VIOLATION" | head -8 | cut -c1-260
